@@ -425,12 +425,17 @@ class Rule_LT09(BaseRule):
                             fixes.append(LintFix.delete(seg))
                             all_deletes.add(seg)
 
-                    if move_after_select_clause or add_newline:
+                    # NOTE: Meta segments (e.g. an indent) have no raw and
+                    # can't be part of an edit, they're recreated on reparse.
+                    moved_segments = [
+                        seg for seg in move_after_select_clause if seg.raw
+                    ]
+                    if moved_segments or add_newline:
                         fixes.append(
                             LintFix.create_after(
                                 select_clause[0],
                                 ([NewlineSegment()] if add_newline else [])
-                                + list(move_after_select_clause),
+                                + moved_segments,
                             )
                         )
 
